@@ -672,8 +672,8 @@ func (c *Ctx) chanOriginCall(call *ssa.Call, idx int, out map[string]token.Pos, 
 
 func ruleWatchOrigin(c *Ctx, r *Reporter) {
 	exempt := map[string]string{
-		"statedb.(genTable).Initialized":  "by contract returns the pre-closed channel when initialized",
-		"statedb.(changeIterator).Next":   "by contract returns the pre-closed channel when changes are pending",
+		"statedb.(genTable).Initialized":   "by contract returns the pre-closed channel when initialized",
+		"statedb.(changeIterator).Next":    "by contract returns the pre-closed channel when changes are pending",
 		"statedb.(changeIterator).nextAny": "forwards Next",
 	}
 	legal := func(k string) bool {
